@@ -510,6 +510,66 @@ void add_multicomp_space(mc::Runner &R, const std::string &name, bool small, boo
   R.add(sp);
 }
 
+// Length sweeps: the size prefix of a block, the rANS payload and the frequency table each change their own encoded length at
+// thresholds of the PAYLOAD size (128 bytes, 16384 bytes), which arrays of a few fixed lengths never hit. Every length of a window
+// (1..700 symbols, and the window in which the payload passes 16384..16511 bytes for the alphabet size) x alphabet {2,16,256} x
+// levels x components x the three scheme choices.
+void add_length_sweep_space(mc::Runner &R, const std::string &name, int window, std::vector<int> levels, std::vector<int> comps_list,
+                            std::vector<int> alphabets, bool quick, bool thorough) {
+  static const uint32_t kK[3] = {2, 16, 256};
+  // window 0: lengths 1..700; window 1: per alphabet, the lengths around payload = 16384 bytes (bits per symbol 1, 4, 8)
+  static const int kLo[3] = {130000, 32400, 16000}, kHi[3] = {133400, 33500, 16800}, kStep[3] = {4, 1, 1};
+  auto L = std::make_shared<std::vector<std::array<int, 2>>>();  // (alphabet index, length)
+  for (int a : alphabets) {
+    if (window == 0)
+      for (int n = 1; n <= 700; ++n) L->push_back({a, n});
+    else
+      for (int n = kLo[a]; n <= kHi[a]; n += kStep[a]) L->push_back({a, n});
+  }
+  mc::Radix rx{(uint64_t)levels.size(), (uint64_t)comps_list.size(), (uint64_t)L->size()};
+  mc::Space sp;
+  sp.name = name;
+  sp.size = rx.size();
+  sp.quick = quick;
+  sp.thorough = thorough;
+  sp.cases_per_index = 3;
+  sp.timeout_s = 120;
+  auto make = [=](uint64_t idx, std::vector<uint32_t> *sym, int *comps, int *level, std::string *d) {
+    auto dg = rx.decode(idx);
+    *level = levels[dg[0]];
+    *comps = comps_list[dg[1]];
+    const int a = (*L)[dg[2]][0];
+    int n = (*L)[dg[2]][1];
+    n -= n % *comps;
+    if (n == 0) n = *comps;
+    sym->resize(n);
+    uint32_t x = 0x9e3779b9u ^ (uint32_t)n;
+    for (int i = 0; i < n; ++i) {
+      x ^= x << 13; x ^= x >> 17; x ^= x << 5;  // xorshift32, a fixed function of (length, position)
+      (*sym)[i] = x % kK[a];
+    }
+    if (d) *d = std::to_string(n) + " values of a fixed xorshift sequence modulo " + std::to_string(kK[a]) + ", " + std::to_string(*comps) + " components, level " + std::to_string(*level);
+  };
+  sp.run = [=](uint64_t idx, mc::Ctx &ctx) {
+    std::vector<uint32_t> sym;
+    int comps, level;
+    std::string d;
+    make(idx, &sym, &comps, &level, &d);
+    Acc acc;
+    for (int scheme = 0; scheme < 3; ++scheme) run_case(sym.data(), (int)sym.size(), comps, level, scheme, ctx, acc, [&] { return d; });
+    acc.flush(ctx);
+    ctx.count("length_sweep_arrays");
+  };
+  sp.describe = [=](uint64_t idx) {
+    std::vector<uint32_t> sym;
+    int comps, level;
+    std::string d;
+    make(idx, &sym, &comps, &level, &d);
+    return d + " x {auto, forced tagged, forced raw}";
+  };
+  R.add(sp);
+}
+
 }  // namespace
 
 int main(int argc, char **argv) {
@@ -546,6 +606,9 @@ int main(int argc, char **argv) {
 
   if (fast_part) {
     add_fam_space(R, "norm_large", &g_fam_large, true, true);
+    add_length_sweep_space(R, "length_sweep_1_to_700", 0, {0, 7, 10}, {1, 2}, {0, 1, 2}, true, true);
+    add_length_sweep_space(R, "length_sweep_payload_16384_quick", 1, {7}, {1}, {2}, true, false);
+    add_length_sweep_space(R, "length_sweep_payload_16384", 1, {0, 7, 10}, {1, 2}, {0, 1, 2}, false, true);
     add_multicomp_space(R, "long_arrays_2_to_4_components_small", true, true, false);
     add_multicomp_space(R, "long_arrays_2_to_4_components", false, false, true);
     add_expensive_space(R, "expensive_len1to2", 1, 2, true, true);
